@@ -771,7 +771,7 @@ func (Engine) RunOne(t *core.Tape, prop, tier string, info *core.RunInfo) *core.
 			}
 		} else if ev.Kind == "byz-act" {
 			b := ev.To
-			act := t.Intn("byz.ver", 6)
+			act := t.Intn("byz.ver", 7)
 			var r *Resp
 			name := ""
 			switch act {
@@ -802,6 +802,15 @@ func (Engine) RunOne(t *core.Tape, prop, tier string, info *core.RunInfo) *core.
 				name = "conflicting-second"
 			case 5:
 				name = "silent"
+			case 6:
+				// an approval that an honest verifier h really signed - in an EARLIER session of the same dealer
+				// and verifiers - replayed with its session id field rewritten to the current one (seed C10h: the
+				// signature no longer covered the session id)
+				h := (b + 1 + t.Intn("byz.ver", n-1)) % n
+				r = &Resp{Sid: t.OtherBytes("byz.val", realSid, len(realSid)), Index: uint32(h), Approved: true, auth: false}
+				va.SignResp(r, privs[h])
+				r.Sid = kit.CopyBytes(realSid)
+				name = "replayed-from-earlier-session"
 			}
 			info.ByzFired("verifier:" + name)
 			info.Logf("t=%d byz verifier %d: %s", net.Now, b, name)
